@@ -272,7 +272,7 @@ func TestVerif_C05_Tracking(t *testing.T) {
 	shard, _ := kit.Shard()
 	r := kit.NewResult(t, "c05-tracking", seed, "seeded histories (14..26 operations) over four namespaces (root, child, grand-child, one with its own shamir seal) of: leased secrets (2s/3s/1h), bounded secrets, tokens (some periodic), logins, non-expiring root tokens, renewals, sync / lazy / prefix revocations, token revocations; then a transition (seal+unseal of the core = rebuilt expiration manager, a new core on the same store, or seal+unseal of the sealable namespace). After the history, after the transition and after the namespace was unsealed again: every lease record found by scanning the physical keys of all namespaces must be in pending/nonexpiring/irrevocable, pending entries must carry a timer and the stored expiry, non-expiring entries must have no stored expiry; bounded secrets renewed after the restart stay within issue+max; finally all leases that expire within 4s are awaited: once the clock passed their stored expiry they must disappear (bounded progress). A history is non-trivial when it left at least 5 stored leases in at least 2 namespaces at the transition")
 	defer r.Write(t)
-	nh := kit.N(6, 20)
+	nh := kit.N(6, 48)
 	for ti, tx := range []bool{false, true} {
 		e := c05Boot(t, tx, true, 0)
 		for hi := 0; hi < nh/2; hi++ {
@@ -522,7 +522,7 @@ func TestVerif_C05_Crash(t *testing.T) {
 	combos := []struct {
 		tx bool
 		ns string
-	}{{false, ""}, {true, "ns1/"}, {true, ""}, {false, "ns1/ns2/"}}
+	}{{false, ""}, {true, "ns1/"}, {true, ""}, {false, "ns1/ns2/"}, {false, "ns1/"}, {true, "ns1/ns2/"}}
 	if kit.Tier() == "quick" {
 		combos = combos[:2]
 	}
@@ -683,7 +683,7 @@ func TestVerif_C05_RetryBudget(t *testing.T) {
 		return false
 	}
 	c05SetFailRevoke(v, fail)
-	n := kit.N(12, 36)
+	n := kit.N(12, 72)
 	batchSize := 6
 	for b0 := 0; b0 < n; b0 += batchSize {
 		var cases []*c05RetryCase
